@@ -254,8 +254,6 @@ void* cpputest_calloc_location(size_t num, size_t size, const char* file, size_t
 
 void* cpputest_realloc_location(void* memory, size_t size, const char* file, size_t line)
 {
-    if (getCurrentMallocAllocator() == NullUnknownAllocator::defaultAllocator())
-        return NULLPTR; /* simulated out of memory: realloc fails like malloc and leaves the block untouched */
     return cpputest_realloc_location_with_leak_detection(memory, size, file, line);
 }
 
